@@ -368,6 +368,26 @@ func c10Classify(c *Ctx) {
 		}
 		r.Check(good, "O-4", fk+"#"+step.op+"-failure-classified", c.P.Pos(call.Pos()), "a failed "+step.op+" returns NewDatabaseErrorWithContext(\""+step.op+"\", file, err)", detail)
 	}
+	// nothing stands between a successful read and the decoder: the bytes read
+	// are the bytes decoded, and no return lies between the two steps
+	{
+		rd := callsTo(ld, "os.ReadFile")
+		um := callsTo(ld, "gopkg.in/yaml.v3.Unmarshal")
+		if len(rd) == 1 && len(um) == 1 {
+			_, fail := nilTests(errValue(rd[0]))
+			barrier := map[*ssa.BasicBlock]bool{um[0].Block(): true}
+			good, why := true, ""
+			for _, ret := range ssau.ReturnsOf(ld) {
+				if ret.Block() != um[0].Block() && reachAvoidBB(rd[0].Block(), ret.Block(), fail, barrier) {
+					good, why = false, "the file can be refused at "+c.P.Pos(ret.Pos())+" after it was read and before the decoder has seen it"
+				}
+			}
+			if resultValue(rd[0], 0) == nil || um[0].Common().Args[0] != resultValue(rd[0], 0) {
+				good, why = false, "the decoder is not given exactly the bytes that were read"
+			}
+			r.Check(good, "O-4", fk+"#decoder-decides", c.P.Pos(um[0].Pos()), "every file that was read goes to the decoder unchanged", why+": whether content is a list of entries is the decoder's verdict alone (it accepts encodings and shapes a pre-check would refuse)")
+		}
+	}
 	// success: after both steps succeeded every return carries a nil error and a database
 	{
 		um := callsTo(ld, "gopkg.in/yaml.v3.Unmarshal")
@@ -455,7 +475,60 @@ func c10Classify(c *Ctx) {
 			}
 		}
 	}
+	// (c) nothing ahead of the error-chain test can capture a missing file: the
+	// tests a read failure passes before it are on the operation, on a nil
+	// cause, or on how the message BEGINS (a read failure's message begins with
+	// its own operation and then quotes the path, which may contain anything)
+	{
+		var chainIf *ssa.If
+		for _, call := range callsTo(cl, "errors.Is") {
+			if g, ok := call.Common().Args[1].(*ssa.UnOp); ok {
+				if gl, ok := g.X.(*ssa.Global); ok && gl.Name() == "ErrNotExist" {
+					for _, ref := range *call.Referrers() {
+						if iff, ok := ref.(*ssa.If); ok {
+							chainIf = iff
+						}
+					}
+				}
+			}
+		}
+		good, why := chainIf != nil, "no errors.Is(cause, fs.ErrNotExist) test"
+		if chainIf != nil {
+			for _, iff := range ssau.Ifs(cl) {
+				b := iff.Block()
+				if b == chainIf.Block() || !(b == entry || reachAvoidBB(entry, b, nil, nil)) || !reachAvoidBB(b, chainIf.Block(), nil, nil) {
+					continue
+				}
+				if !c10HarmlessBeforeChain(cl, iff) {
+					good, why = false, "the test at "+c.P.Pos(iff.Cond.Pos())+" looks into the message text before the error chain is consulted"
+				}
+			}
+		}
+		r.Check(good, "O-4", ck+"#chain-before-text", c.P.Pos(cl.Pos()), "only operation, nil-cause and message-prefix tests precede errors.Is(cause, fs.ErrNotExist)", why+": a read failure's message quotes the path, so a missing file whose path contains the phrase is given the wrong verdict")
+	}
 	r.Check(isOK, "O-4", ck+"#missing-file-is-not-found", c.P.Pos(cl.Pos()), "errors.Is(cause, fs.ErrNotExist) leads to the not-found verdict", "a read failure that is fs.ErrNotExist is not (any longer) recognised through the error chain: the verdict then depends on the wording of the platform's message")
+}
+
+// c10HarmlessBeforeChain: the branch condition cannot be influenced by the
+// path quoted in a read failure's message: a comparison of the operation
+// parameter with a constant, a nil test of the cause, or strings.HasPrefix of
+// the message with a constant.
+func c10HarmlessBeforeChain(fn *ssa.Function, iff *ssa.If) bool {
+	if op, x, y, ok := ssau.CondOf(iff.Cond); ok && (op == token.EQL || op == token.NEQ) {
+		if x == ssa.Value(fn.Params[0]) || y == ssa.Value(fn.Params[0]) {
+			_, c1 := ssau.ConstString(x)
+			_, c2 := ssau.ConstString(y)
+			return c1 || c2
+		}
+		if (x == ssa.Value(fn.Params[2]) && ssau.IsNilConst(y)) || (y == ssa.Value(fn.Params[2]) && ssau.IsNilConst(x)) {
+			return true
+		}
+	}
+	if call, ok := iff.Cond.(*ssa.Call); ok && ssau.CallName(call) == "strings.HasPrefix" {
+		_, isC := ssau.ConstString(call.Common().Args[1])
+		return isC
+	}
+	return false
 }
 
 // c10NilCauseReturn: the return taken when no cause is given at all.
